@@ -110,10 +110,15 @@ def check_runner_map(ctx, i):
     victim = rng.choice(consumers) if consumers else None
     clone = rng.choice([False, False, True, [rng.choice(bcast)] if bcast else False])
     # broadcast values are fresh mutable objects so that sharing vs copying is observable
+    # ... a third of them a TUPLE holding a list: only shallowly immutable, so clone must still copy it
     shared = {}
+    tuple_form = set()
     for b in bcast:
         if not isinstance(inputs[b], int):
-            shared[b] = [inputs[b]]
+            if rng.random() < 0.35:
+                tuple_form.add(b)
+                ctx.obs["tuple_broadcasts"] += 1
+            shared[b] = ([inputs[b]], "t") if b in tuple_form else [inputs[b]]
     case = {"form": "runner.map", "inner": spec, "over": over, "mode": mode, "inputs": core.jsonable(inputs), "clone": clone, "bad": [str(v) for v in bad_vals], "kind": kind}
     ctx.obs["map_calls"] += 0
     for runner in ("sync", "async"):
@@ -126,7 +131,7 @@ def check_runner_map(ctx, i):
             single = dict(inputs)
             single.update(c)
             for b in shared:
-                single[b] = [inputs[b]]
+                single[b] = ([inputs[b]], "t") if b in tuple_form else [inputs[b]]
             rt.FAIL_IF.clear()
             if bad_vals and victim:
                 rt.FAIL_IF[victim] = FailOn(p0, bad_vals)
@@ -136,7 +141,7 @@ def check_runner_map(ctx, i):
             for mc, pol in ((None, "rand"),) if runner == "sync" else ((None, "rand"), (1, "last"), (2, "last"), (3, "rand")):
                 run_inputs = dict(inputs)
                 for b in shared:
-                    run_inputs[b] = [inputs[b]]
+                    run_inputs[b] = ([inputs[b]], "t") if b in tuple_form else [inputs[b]]
                 rt.FAIL_IF.clear()
                 if bad_vals and victim:
                     rt.FAIL_IF[victim] = FailOn(p0, bad_vals)
@@ -300,7 +305,7 @@ def check_node_clone(ctx, i):
         outer = {"name": "top", "nodes": [{"k": "sub", "name": "outer", "prog": outer}], "bind": {}}
     n = rng.randint(1, 4)
     for runner in ("sync", "async"):
-        other = ["other-value"]
+        other = ["other-value"] if rng.random() < 0.6 else (["other-value"], "t")
         inputs = {"items": [f"it{j}" for j in range(n)], ext["other"]: other}
         # sometimes the caller's value is EQUAL to the bound one but another object: still the caller's
         override = (["cfg-from-caller"] if rng.random() < 0.5 else list(CFG)) if rng.random() < 0.45 else None
